@@ -195,8 +195,10 @@ def gen_project(rnd, n_tags=12, programs=1, junk=True, big_tags=None, iid_base=N
         add("TwinTag", twint, [])
         add("TwinArr", twint, [2])
         add("PlainD", atomic(0xC4), [])
+    named = {"Inner": inner, "Flat": flat, "Outer": outer, "Nine": nine, "STRING": s82, "Str": strs[1]}
     for spec in (big_tags or []):
-        add(spec["name"], spec["type"] if "type" in spec else atomic(spec["code"]), spec["dims"])
+        t = named[spec["udt"]] if "udt" in spec else spec["type"] if "type" in spec else atomic(spec["code"])
+        add(spec["name"], t, spec["dims"])
     progs = ["Main", "P2", "Prog_odd"][:programs]
     for p in progs:
         add("Program:" + p, atomic(0), [], kind="program", typeword=0x68)
